@@ -62,3 +62,21 @@ if __name__ == "__main__":
         one(*sys.argv[2:])
     elif sys.argv[1] == "mini":
         mini(*sys.argv[2:])
+    elif sys.argv[1] == "design":
+        # python -m sim.tools design PROP DESIGN.json [VERIF_SEED]: run the check's oracle on a hand-written design AST
+        prop, path = sys.argv[2], sys.argv[3]
+        seed = sys.argv[4] if len(sys.argv) > 4 else "0"
+        check = runner.load_check(prop)
+        i = 0
+        while True:
+            rs = runner.run_seed(seed, prop, i)
+            case = check.gen_case(rs, "quick")
+            if case is not None and "design" in case:
+                break
+            i += 1
+        case["design"] = json.load(open(path))
+        case["faults"] = []
+        case["sweep"] = False
+        case["run_index"], case["run_seed"] = i, rs
+        res = runner.exec_case(check, case, 120)
+        print(json.dumps({k: v for k, v in res.items() if k in ("outcome", "reason", "signature", "detail", "summary")}, indent=1, default=str)[:3000])
